@@ -5,14 +5,21 @@ Constructor names become CamelCase (addr_std -> AddrStd) so that they match the 
 Grammar handled:  decl := [ctor][tag] field* '=' TypeName ';'   |   TypeName '=' type ';' (alias)
   field := name ':' type
   type  := '(' type ')' | '^' type | '##' n | '#<=' n | '#<' n | 'bits' n-or-field | 'Maybe' type | 'Either' type type
-         | 'VarUInteger' n | 'HashmapE' n type | uintN | intN | bitsN | Bool | Unary | Cell | Any | TypeName"""
+         | 'VarUInteger' n | 'HashmapE' n type | uintN | intN | bitsN | Bool | Unary | Cell | Any | TypeName
+Extensions used by spec/schemas/block_more.tlb (the output for files that do not use them is unchanged):
+  '#' (= ## 32) | '{' ... '}' (implicit fields and constraints: skipped, they occupy no bits)
+  '^[' field* ']' anonymous record in a reference: field named _anonK of type ^(seq)
+  name ':' cond '?' type        conditional field, cond := field | field '.' bit       -> {"t":"cond","from":field,"bit":k|-1,"of":type}
+  '(' TypeName arg ')'          use of a type parametrised by a number, arg := field | n -> {"t":"pnamed","name":T,"arg":arg}
+  '=' TypeName n                constructor of the parametrised type for parameter n     -> {"t":"psum","ctors":[{"param":n,...}]}
+  field name '_' is allowed (account_active$1 _:StateInit)."""
 import json, re, sys
 
 def camel(s):
     return "".join(p[:1].upper() + p[1:] for p in s.split("_"))
 
 def tokenize(s):
-    return re.findall(r"\(|\)|\^|##|#<=|#<|[A-Za-z_][A-Za-z_0-9]*|\d+", s)
+    return re.findall(r"\(|\)|\[|\]|\^|\?|\.|:|##|#<=|#<|#|[A-Za-z_][A-Za-z_0-9]*|\d+", s)
 
 class P:
     def __init__(self, toks): self.t, self.i = toks, 0
@@ -22,10 +29,15 @@ class P:
         x = self.next()
         if x == "(":
             r = self.expr(); assert self.next() == ")"; return r
-        if x == "^": return {"t": "ref", "of": self.atom()}
+        if x == "^":
+            if self.peek() == "[":
+                self.next(); inner = self.fields("]"); assert self.next() == "]"
+                return {"t": "ref", "of": {"t": "seq", "fields": inner}}
+            return {"t": "ref", "of": self.atom()}
         if x == "##": return {"t": "uint", "n": int(self.next())}
         if x == "#<=": return {"t": "natle", "n": int(self.next())}
         if x == "#<": return {"t": "natlt", "n": int(self.next())}
+        if x == "#": return {"t": "uint", "n": 32}
         m = re.fullmatch(r"(uint|int|bits)(\d+)", x)
         if m: return {"t": m.group(1), "n": int(m.group(2))}
         if x == "Bool": return {"t": "bool"}
@@ -42,6 +54,46 @@ class P:
         if x == "bits":
             self.next(); y = self.next()
             return {"t": "bits", "n": int(y)} if y.isdigit() else {"t": "bitsdep", "from": y}
+        if x is not None and re.fullmatch(r"[A-Z]\w*", x) and x not in ("Bool", "Unary", "Cell", "Any") and self.i + 1 < len(self.t) \
+                and (self.t[self.i + 1].isdigit() or re.fullmatch(r"[a-z_]\w*", self.t[self.i + 1])) and not re.fullmatch(r"(uint|int|bits)\d+", self.t[self.i + 1]):
+            # (TypeName arg): a type parametrised by a number given as a constant or as an earlier field
+            self.next(); arg = self.next()
+            return {"t": "pnamed", "name": x, "arg": arg}
+        return self.atom()
+
+    # ---- field lists (tokens), used when the declaration needs more than the simple `name:type` form
+    def fields(self, closer=None):
+        out = []
+        while self.peek() is not None and self.peek() != closer:
+            if self.peek() == "^" and self.i + 1 < len(self.t) and self.t[self.i + 1] == "[":
+                self.next(); self.next()
+                inner = self.fields("]")
+                assert self.next() == "]"
+                out.append({"name": "_anon%d" % len(out), "ty": {"t": "ref", "of": {"t": "seq", "fields": inner}}})
+                continue
+            name = self.next()
+            assert re.fullmatch(r"[a-z_][a-z_0-9]*", name), "field name expected, got %r" % name
+            assert self.next() == ":", "':' expected after field %s" % name
+            # conditional:  cond ? type   with cond := field | field . bit
+            j = self.i
+            if re.fullmatch(r"[a-z_][a-z_0-9]*", self.t[j] or "") and (
+                    (j + 1 < len(self.t) and self.t[j + 1] == "?") or (j + 3 < len(self.t) and self.t[j + 1] == "." and self.t[j + 3] == "?")):
+                frm = self.next(); bit = -1
+                if self.peek() == ".":
+                    self.next(); bit = int(self.next())
+                assert self.next() == "?"
+                out.append({"name": name, "ty": {"t": "cond", "from": frm, "bit": bit, "of": self.ftype()}})
+                continue
+            out.append({"name": name, "ty": self.ftype()})
+        return out
+
+    def ftype(self):
+        # a field type is an atom (parenthesised expression, ^atom, builtin or name); ^[...] handled by fields()
+        if self.peek() == "^" and self.i + 1 < len(self.t) and self.t[self.i + 1] == "[":
+            self.next(); self.next()
+            inner = self.fields("]")
+            assert self.next() == "]"
+            return {"t": "ref", "of": {"t": "seq", "fields": inner}}
         return self.atom()
 
 def parse(text):
@@ -54,13 +106,24 @@ def parse(text):
         lhs, rhs = lhs.strip(), rhs.strip()
         if re.fullmatch(r"[A-Z]\w*", lhs):                     # alias:  Name = type
             types[lhs] = P(tokenize(rhs)).expr(); continue
-        tname = rhs
+        tname, param = rhs, None
+        pm = re.fullmatch(r"([A-Z]\w*)\s+(\d+)", rhs)           # constructor of a type parametrised by a number
+        if pm:
+            tname, param = pm.group(1), int(pm.group(2))
         m = re.match(r"^([a-z_][a-z_0-9]*|_)?([$#][0-9a-fA-F_]+)?\s*(.*)$", lhs, re.S)
         ctor, tag, rest = m.group(1) or "_", m.group(2) or "", m.group(3)
         fields = []
-        for fm in re.finditer(r"([a-z_][a-z_0-9]*)\s*:\s*(\([^()]*(?:\([^()]*(?:\([^()]*\)[^()]*)*\)[^()]*)*\)|\^?\s*[A-Za-z_0-9]+)", rest):
-            fields.append({"name": fm.group(1), "ty": P(tokenize(fm.group(2))).expr()})
+        if re.search(r"[\[\]{}?]|:\s*#(?![#<])|\b_\s*:", rest) or param is not None:
+            # extended declaration: constraints / implicit fields in braces are dropped (no bits), the rest is parsed from tokens
+            rest2 = re.sub(r"\{[^{}]*\}", " ", rest)
+            fields = P(tokenize(rest2)).fields()
+        else:
+            for fm in re.finditer(r"([a-z_][a-z_0-9]*)\s*:\s*(\([^()]*(?:\([^()]*(?:\([^()]*\)[^()]*)*\)[^()]*)*\)|\^?\s*[A-Za-z_0-9]+)", rest):
+                fields.append({"name": fm.group(1), "ty": P(tokenize(fm.group(2))).expr()})
         body = {"t": "seq", "fields": fields}
+        if param is not None:
+            types.setdefault(tname, {"t": "psum", "ctors": []})["ctors"].append({"name": camel(ctor), "param": param, "tag": tag.lower(), "body": body})
+            continue
         types.setdefault(tname, {"t": "sum", "ctors": []})["ctors"].append({"name": camel(ctor), "tag": tag.lower(), "body": body})
     out = {}
     for n, t in types.items():
